@@ -145,10 +145,17 @@ def run(rep: Report) -> None:
     from ..model import Program
     from ..planner_reach import PlannerReach, coherent_si, verify_anchors
     prog = Program()
-    anchors = verify_anchors(prog)
+    try:
+        anchors = verify_anchors(prog)
+    except AnalysisError as e:
+        # the planner no longer has the shape R09.7 is derived from: the other rules still report; the run ends as an
+        # analysis error only if they find nothing
+        rep.defer(e)
+        rep.rules["R09.7"].floor = 0
+        anchors = []
     pr = PlannerReach(ev)
     n7 = 0
-    for u in sorted({id(x): x for x in ev.unit_by_name.values()}.values(), key=lambda x: x.uid):
+    for u in (sorted({id(x): x for x in ev.unit_by_name.values()}.values(), key=lambda x: x.uid) if anchors else []):
         if not u.is_base:
             continue  # a named compound is its own product of base units
         target = coherent_si(ev, u)
